@@ -565,7 +565,11 @@ class domain(config_domain):
 
     def _make_keywords_filter(self, default_keys, accept_keywords):
         """Generates a restrict that matches iff the keywords are allowed."""
-        if not accept_keywords and not self.profile.keywords:
+        if (
+            not accept_keywords
+            and not self.profile.keywords
+            and not {"*", "~*", "**"}.intersection(default_keys)
+        ):
             return packages.PackageRestriction(
                 "keywords", values.ContainmentMatch(frozenset(default_keys))
             )
